@@ -219,7 +219,11 @@ class P(Property):
             'streams of random types (duplicates of critical streams, early closes) in random arrival interleavings; every case with '
             'a credit script (0..4 initial uni credits, G grants) and write budgets (unlimited, or 0 with small/large W grants), '
             'grease on/off. non-trivial = distinct cases in which the build completed and at least one chunk of a peer stream was delivered')
-    partial_note = ''
+    partial_note = ('C04_exactly_once_partial and the T1/T2 theorems carry the premise d_res <> RIndet (runs in which the model\'s '
+                    'interval arithmetic for fastrand-dependent write lengths is indeterminate; never produced by the generators); '
+                    'T3 is stated as two composing theorems (rule table over the frames taken; frames taken = RFC 7.1 segmentation of the '
+                    'bytes via C02\'s refinement) rather than one; the byte-level theorems use C02\'s settings_verdict for SETTINGS '
+                    'contents; "first violation in processing order" is not claimed when several streams violate')
     trusted_extra = [
         'SimQuic transport and executor (harness/src/simquic.rs); explicit polls only (no wakers)',
         'frame layer model Model/FrameStream.v and spec Spec/Frames.v are C02\'s; SETTINGS contents Model/Settings.v, Spec/RFC9114Settings.v are C13\'s',
